@@ -265,7 +265,7 @@ class GoDriver:
             lines = [json.dumps(c) for c in pending]
             try:
                 p = subprocess.run(['/bin/sh', '-c', 'ulimit -v 4000000; exec "$0"', staged(self.binary)],
-                                   input=('\n'.join(lines) + '\n').encode(), capture_output=True, env=env, cwd=work, timeout=900, **as_scratch_user())
+                                   input=('\n'.join(lines) + '\n').encode(), capture_output=True, env=env, cwd=work, timeout=300, **as_scratch_user())
                 outs = p.stdout.decode('utf-8', 'replace').split('\n')
                 rc = p.returncode
                 stderr = p.stderr.decode('utf-8', 'replace')
@@ -291,7 +291,7 @@ class GoDriver:
             culprit = pending[answered]
             kind = 'timeout' if rc == -9 else 'crash'
             m = re.search(r'(fatal error: [^\n]*|panic: [^\n]*|signal: [^\n]*)', stderr)
-            crashes += 1
+            crashes += 9 if kind == 'timeout' else 1      # three whole-shard timeouts are enough
             res[culprit['id']] = {'id': culprit['id'], 'status': kind, 'text': hx(m.group(1) if m else stderr[-200:]), 'out': '', 'rc': rc}
             pending = pending[answered + 1:]
         return res
